@@ -21,6 +21,7 @@ type Clause struct {
 	Label string
 	Expr  ast.Expr
 	Src   string
+	From  []string // prove this clause from the named earlier clauses (and the requires) only
 }
 
 type LoopContract struct {
@@ -53,6 +54,8 @@ type Contract struct {
 	Assigns   []ast.Expr
 	HasAssign bool
 	Returns   ast.Expr
+	ReturnsIf []Clause // returns_if cond: expr  (Label unused; Expr = cond, From[0] = source of value expr)
+	ReturnsIfVal []ast.Expr
 	Loops     map[int]*LoopContract
 	Inline    bool
 	Assume    bool
@@ -74,10 +77,22 @@ type Contract struct {
 }
 
 var labelRe = regexp.MustCompile(`^([A-Za-z_][A-Za-z0-9_.\-]*):\s+(.*)$`)
+var labelFromRe = regexp.MustCompile(`^([A-Za-z_][A-Za-z0-9_.\-]*)\s*\[from ([^\]]*)\]:\s+(.*)$`)
 
 func parseClause(s string) (Clause, error) {
 	c := Clause{Src: s}
-	if m := labelRe.FindStringSubmatch(s); m != nil {
+	if m := labelFromRe.FindStringSubmatch(s); m != nil {
+		c.Label = m[1]
+		for _, f := range strings.Split(m[2], ",") {
+			if f = strings.TrimSpace(f); f != "" {
+				c.From = append(c.From, f)
+			}
+		}
+		if len(c.From) == 0 {
+			c.From = []string{"-"}
+		}
+		s = m[3]
+	} else if m := labelRe.FindStringSubmatch(s); m != nil {
 		c.Label = m[1]
 		s = m[2]
 	}
@@ -333,6 +348,21 @@ func (eng *Engine) loadContractFile(file string) error {
 				}
 				cur.Assigns = append(cur.Assigns, e.(*ast.CallExpr).Args...)
 			}
+		case "returns_if":
+			i := strings.LastIndex(rest, " : ")
+			if i < 0 {
+				return errf("returns_if cond : expr")
+			}
+			c, err := parseClause(strings.TrimSpace(rest[:i]))
+			if err != nil {
+				return errf("%v", err)
+			}
+			v, err := parseSpecExpr(strings.TrimSpace(rest[i+3:]))
+			if err != nil {
+				return errf("%v", err)
+			}
+			cur.ReturnsIf = append(cur.ReturnsIf, c)
+			cur.ReturnsIfVal = append(cur.ReturnsIfVal, v)
 		case "returns":
 			e, err := parseSpecExpr(rest)
 			if err != nil {
@@ -611,6 +641,16 @@ func (env *specEnv) eval(e ast.Expr) Value {
 		idx := env.toIdx(env.eval(x.Index))
 		switch b := base.(type) {
 		case *Slice:
+			if b.Base.Obj == nil {
+				// element of a nil slice: only meaningful under a guard that is false; any value will do
+				es := BVSort(8)
+				if b.Elem != nil && ex.scalarSort(b.Elem) != nil {
+					es = ex.scalarSort(b.Elem)
+				} else if ex.mode == ModeInt {
+					es = IntSort
+				}
+				return Fresh("nil.elem", es)
+			}
 			return env.load(b.Base.with(Sel{Field: -1, Idx: ex.add(b.Off, idx)}))
 		case *Ptr:
 			return env.load(b.with(Sel{Field: -1, Idx: idx}))
@@ -639,7 +679,7 @@ func (env *specEnv) eval(e ast.Expr) Value {
 		if x.High != nil {
 			hi = env.toIdx(env.eval(x.High))
 		}
-		return &Slice{Base: sv.Base, Off: ex.add(sv.Off, lo), Len: ex.sub(hi, lo), Cap: ex.sub(sv.Cap, lo), Nil: False, Elem: sv.Elem}
+		return &Slice{Base: sv.Base, Off: ex.add(sv.Off, lo), Len: ex.sub(hi, lo), Cap: ex.sub(sv.Cap, lo), Nil: sv.Nil, Elem: sv.Elem}
 	case *ast.CallExpr:
 		return env.call(x)
 	}
@@ -1271,6 +1311,38 @@ func (env *specEnv) call(c *ast.CallExpr) Value {
 			alts = append(alts, sub.toBool(sub.eval(c.Args[1])))
 		}
 		return Or(alts...)
+	case "span":
+		// span(p): elements addressable from pointer p inside the slice/array it was derived from
+		pv, ok := arg(0).(*Ptr)
+		if !ok {
+			env.fail("span of %T", arg(0))
+		}
+		if pv.Obj == nil {
+			return ex.idxConst(0)
+		}
+		if pv.Span != nil {
+			return pv.Span
+		}
+		if at, ok := pv.Obj.T.Underlying().(*types.Array); ok && len(pv.Path) == 0 {
+			return ex.idxConst(at.Len())
+		}
+		return ex.idxConst(1)
+	case "mem":
+		// mem(p, n): the n elements starting at pointer p, as a slice
+		pv, ok := arg(0).(*Ptr)
+		if !ok {
+			env.fail("mem of %T", arg(0))
+		}
+		n := env.toIdx(arg(1))
+		if pv.Obj == nil {
+			return &Slice{Base: &Ptr{}, Off: ex.idxConst(0), Len: n, Cap: n, Nil: True}
+		}
+		if len(pv.Path) > 0 && pv.Path[len(pv.Path)-1].Field < 0 {
+			last := pv.Path[len(pv.Path)-1]
+			base := &Ptr{Obj: pv.Obj, Path: pv.Path[:len(pv.Path)-1]}
+			return &Slice{Base: base, Off: last.Idx, Len: n, Cap: n, Nil: False}
+		}
+		return &Slice{Base: pv, Off: ex.idxConst(0), Len: n, Cap: n, Nil: False}
 	case "redc_witness":
 		// sum of the distinct Montgomery reduction multipliers x_i (first operands of
 		// bits.Mul64(x_i, c) with c the lowest limb of the modulus), weighted 2^(64 i)
